@@ -151,11 +151,16 @@ def run(ck, ctx):
                         continue
                     if name in ("tmcintopt", "tmcintrad") and not target:
                         continue
-                    c = lc.of(I.snapshot(v, st))
+                    snap = I.snapshot(v, st)
+                    c = lc.of(snap)
                     n += 1
-                    # an unknown population is undecided (a construct the population facet cannot read), never a verdict
-                    ck.ob("R14.3", f"[{label}] column {name} has one row per surviving trajectory",
-                          None if c == TOP else (c == ref and is_def(c)), v, func,
+                    # an unknown population is undecided (a construct the population facet cannot read), never a verdict -
+                    # unless it is unknown because the column was cut or indexed by position along the event axis
+                    verdict = c == ref and is_def(c)
+                    if c == TOP:
+                        pos_ids = {p_[0].id for p_ in lc.positional}
+                        verdict = False if any(x.id in pos_ids for x in walk([snap])) else None
+                    ck.ob("R14.3", f"[{label}] column {name} has one row per surviving trajectory", verdict, v, func,
                           f"{lc.show(c)} vs geometry selection {lc.show(ref)}")
             ck.floor("R14.3", n, 14, f"stored columns in {label} mode")
     ck.guard(r143, "R14.3")
